@@ -53,6 +53,9 @@ type Case struct {
 	// RetryAfter >= 0: the first attempt's content writers fail after that many bytes in total (what a killed
 	// process or a full disk leaves behind: a partial ingest under the ref); < 0: its context is cancelled early
 	RetryAfter int `json:"retry_after,omitempty"`
+	// PlainStore: the content store keeps no labels (containerd's plain local store, as the repository's own
+	// converter tests use it): conversion works all the same, only the label cannot be looked at
+	PlainStore bool `json:"plain_store,omitempty"`
 }
 
 func gen(t *rapid.T) Case {
@@ -83,6 +86,7 @@ func gen(t *rapid.T) Case {
 		c.Layers = append(c.Layers, l)
 	}
 	c.Parallel = rapid.Bool().Draw(t, "parallel")
+	c.PlainStore = rapid.IntRange(0, 4).Draw(t, "plainstore") == 0
 	c.Retry = rapid.IntRange(0, 3).Draw(t, "retry") == 0
 	if c.Retry {
 		c.RetryAfter = rapid.SampledFrom([]int{-1, 0, 1, 10, 100, 100, 700, 700, 3000}).Draw(t, "retryafter")
@@ -212,6 +216,10 @@ func run(c Case, ev *pbt.Ev) error {
 	}
 	defer os.RemoveAll(dir)
 	cs, err := local.NewLabeledStore(dir, newMemLabels())
+	if c.PlainStore {
+		cs, err = local.NewStore(dir)
+		ev.Class("store-without-labels")
+	}
 	if err != nil {
 		return pbt.Inconclusive("content store: %v", err)
 	}
@@ -360,7 +368,7 @@ func run(c Case, ev *pbt.Ev) error {
 		if err != nil {
 			return pbt.Violf("blob-missing", "layer %d: %v", i, err)
 		}
-		if got := info.Labels["containerd.io/uncompressed"]; got != esgzref.Sha256(dec) {
+		if got := info.Labels["containerd.io/uncompressed"]; got != esgzref.Sha256(dec) && !c.PlainStore {
 			return pbt.Violf("diffid-label", "layer %d: content label containerd.io/uncompressed = %q, sha256 of the decompressed blob is %s", i, got, esgzref.Sha256(dec))
 		}
 		converted[d.Digest] = i
